@@ -253,7 +253,7 @@ def upload(idx, sub, allow_expedited=True):
             raise Deviation("up-seg-progress", "no end")
 
 
-def upload_block(idx, sub, blksize, ack_fn=None, next_blksize_fn=None, crc=False, pst=0):
+def upload_block(idx, sub, blksize, ack_fn=None, next_blksize_fn=None, crc=False, pst=0, lost_fn=None):
     """ack_fn(block_no, nsegs_sent) -> number of segments to acknowledge (0..nsegs_sent).
        next_blksize_fn(block_no) -> block size announced with that acknowledge."""
     resp = yield bytes([0xA0 | (0x04 if crc else 0)]) + mux(idx, sub) + bytes([blksize, pst, 0, 0])
@@ -300,6 +300,11 @@ def upload_block(idx, sub, blksize, ack_fn=None, next_blksize_fn=None, crc=False
             segs.append(r[1:8])
         k = len(segs) if ack_fn is None else ack_fn(blocks, len(segs))
         k = max(0, min(len(segs), k))
+        if lost_fn is not None:
+            # frames the CAN driver of the server refused never reached the client: it acknowledges the segments in front of the first gap
+            lost = lost_fn()
+            if any(lost[:len(segs)]):
+                k = min(k, list(lost[:len(segs)]).index(True))
         if k < len(segs):
             partial += 1
         for i in range(k):
